@@ -15,7 +15,10 @@ import (
 	"sync"
 	"time"
 
+	"gosmt/instr"
 	"gosmt/sx"
+
+	"golang.org/x/tools/go/packages"
 )
 
 type ReplayRec struct {
@@ -40,7 +43,31 @@ type replayOutcome struct {
 
 // runNative runs the given replay files through the natively compiled
 // harnesses (go test -overlay) and returns the outcome per file.
-func runNative(reg *Registry, files []string) (map[string]replayOutcome, error) {
+// instrumented writes yield-instrumented copies of the package's own source
+// files into dir and returns the overlay entries for them.
+func instrumented(pp *packages.Package, dir string) (map[string]string, error) {
+	out := map[string]string{}
+	in := &instr.Instrumenter{Fset: pp.Fset, Info: pp.TypesInfo}
+	for i, f := range pp.Syntax {
+		name := pp.CompiledGoFiles[i]
+		base := filepath.Base(name)
+		if strings.HasPrefix(base, "zz_verif") || strings.HasSuffix(base, "_test.go") || filepath.Dir(name) != repoDir {
+			continue
+		}
+		src, err := in.File(f)
+		if err != nil {
+			return nil, err
+		}
+		dst := filepath.Join(dir, "instr_"+base)
+		if err := os.WriteFile(dst, src, 0o644); err != nil {
+			return nil, err
+		}
+		out[name] = dst
+	}
+	return out, nil
+}
+
+func runNative(reg *Registry, files []string, pp *packages.Package) (map[string]replayOutcome, error) {
 	out := map[string]replayOutcome{}
 	if len(files) == 0 {
 		return out, nil
@@ -55,6 +82,19 @@ func runNative(reg *Registry, files []string) (map[string]replayOutcome, error) 
 		return nil, err
 	}
 	repl := map[string]string{}
+	if pp == nil {
+		pp, err = loadTyped()
+		if err != nil {
+			return nil, fmt.Errorf("instrumenting for replay: %v", err)
+		}
+	}
+	ins, err := instrumented(pp, tmp)
+	if err != nil {
+		return nil, fmt.Errorf("instrumenting for replay: %v", err)
+	}
+	for k, v := range ins {
+		repl[k] = v
+	}
 	for _, f := range hfiles {
 		base := filepath.Base(f)
 		if base == "zz_verif_api.go" {
@@ -139,7 +179,7 @@ func cmdReplay(args []string) int {
 		p, _ := filepath.Abs(a)
 		files = append(files, p)
 	}
-	res, err := runNative(reg, files)
+	res, err := runNative(reg, files, nil)
 	if err != nil {
 		fmt.Fprintln(os.Stderr, err)
 		return 2
@@ -376,7 +416,7 @@ func cmdCheck(args []string) int {
 	violations := 0
 	var violLines []string
 	if len(files) > 0 {
-		outc, err := runNative(reg, files)
+		outc, err := runNative(reg, files, ld.PPkg)
 		if err != nil {
 			inconclusive = append(inconclusive, "native replay could not run: "+err.Error())
 		} else {
